@@ -45,6 +45,7 @@ class Exec(HeapMixin, SpecEvalMixin, ExprMixin, StmtMixin, CallMixin):
         self.reg = reg
         self.max_steps = max_steps
         self.kind_hints = getattr(reg, "kind_hints", {})
+        self.merging = True
         self.reset("?")
 
     def reset(self, fname):
@@ -341,7 +342,13 @@ class Exec(HeapMixin, SpecEvalMixin, ExprMixin, StmtMixin, CallMixin):
         for loc in list(c.modifies) + list(c.ghost_modifies):
             for item in self.parse_location(env, loc):
                 kind = item[0]
-                if kind == "field*":
+                if kind == "seq*":
+                    permitted[self._seq_key(item[2], item[1])[0]] = None
+                elif kind == "dict*":
+                    ks, dom, vals = self._dict_keys(VDict(I(0), item[1].k, item[1].v))
+                    for key in [dom] + [v[0] for v in vals]:
+                        permitted[key] = None
+                elif kind == "field*":
                     d = self.field_decl(item[1], item[2])
                     for suf, so in layout(d[1]) + ([("$has", BOOL)] if d[2] else []):
                         permitted[f"{d[0]}.{item[2]}{suf}"] = None
@@ -356,7 +363,7 @@ class Exec(HeapMixin, SpecEvalMixin, ExprMixin, StmtMixin, CallMixin):
                         if permitted.get(key, []) is not None:
                             permitted.setdefault(key, []).append(item[1].t)
                 elif kind in ("list", "deque"):
-                    key, _ = self._seq_key(item[1].elem)
+                    key, _ = self._seq_key(item[1].elem, item[1])
                     if permitted.get(key, []) is not None:
                         permitted.setdefault(key, []).append(
                             item[1].t if item[3] is None else Ite(item[3], item[1].t, I(0)))
